@@ -154,12 +154,14 @@ struct World
 	int api_depth = 0;          // > 0 while an initiating API call is on the stack
 	long step_no = 0;           // event boundary counter (step hook)
 	long pkt_ids = 0;
+	std::string pcap_path;      // capture file of this scenario (`pcap on`)
 
 	struct Net;                 // sockets, acceptors, resolvers (simdrv_net.cpp)
 	std::shared_ptr<Net> net;  // shared_ptr: Net is incomplete here
 };
 
 extern World* g_world;
+extern std::string g_trace_path;
 
 } // namespace simdrv
 
